@@ -4,6 +4,7 @@ package server
 
 import (
 	"bytes"
+	"errors"
 	"fmt"
 	"net"
 	rsync "sync"
@@ -30,7 +31,14 @@ type e2eRig struct {
 	dialer   *vnet.Dialer
 	pub      [32]byte
 	adminUID []byte
+	// wrapAccepted, if set, may replace the i-th accepted connection (fault injection on the server's side of it)
+	wrapAccepted func(i int, c net.Conn) net.Conn
 }
+
+// deafConn is a connection whose peer can no longer be written to: every Write fails, nothing else does.
+type deafConn struct{ net.Conn }
+
+func (d deafConn) Write(b []byte) (int, error) { return 0, errors.New("injected: write failed") }
 
 type fixedReader struct{ b byte }
 
@@ -120,6 +128,9 @@ func (r *e2eRig) serve(n int) {
 			c, err := r.srvL.Accept()
 			if err != nil {
 				return
+			}
+			if r.wrapAccepted != nil {
+				c = r.wrapAccepted(i, c)
 			}
 			vrt.Go(fmt.Sprintf("dispatch%d", i), func() { dispatchConnection(c, r.sta) })
 		}
